@@ -1,12 +1,13 @@
-from . import c01
+from . import c01, wrappers
 
 
 def run(check, pool, Task):
     c01.run_kernels(check, pool, Task)
+    wrappers.run_c01(check, pool, Task)
 
 
 def replay(path):
     import json
     w = json.load(open(path))['witness']
-    print(json.dumps(w, indent=1)[:2000])
+    print(json.dumps(w, indent=1)[:3000])
     return 0
